@@ -241,27 +241,29 @@ impl<const N: u32> From<&Q32E2> for PxE2<{ N }> {
             frac64_a &= 0x_7FFF_FFFF_FFFF_FFFF;
 
             let shift = reg_a + 35; //2 es bit, 1 sign bit and 1 r terminating bit , 31+4
-            let mut frac_a = (frac64_a >> shift) as u32;
+            let mut frac_a = crate::u64_zero_shr(frac64_a, shift) as u32;
 
             //regime length is smaller than length of posit
             let mut bit_n_plus_one = false;
             if reg_a < N {
-                if reg_a <= (N - 4) {
+                if reg_a + 4 <= N {
                     bit_n_plus_one = ((frac64_a >> (shift + 31 - N)) & 0x1) != 0;
-                    if (frac64_a << (33 - shift + N)) != 0 {
+                    if (frac64_a << (33 + N - shift)) != 0 {
                         bits_more = true;
                     }
                 } else {
-                    if reg_a == (N - 2) {
+                    if reg_a + 2 == N {
                         bit_n_plus_one = (exp_a & 0x2) != 0;
+                        bits_more = bits_more || (exp_a & 0x1) != 0;
                         exp_a = 0;
-                    } else if reg_a == (N - 3) {
+                    } else if reg_a + 3 == N {
                         bit_n_plus_one = (exp_a & 0x1) != 0;
                         //exp_a>>=1;
                         exp_a &= 0x2;
                     }
                     if frac64_a > 0 {
                         frac_a = 0;
+                        bits_more = true;
                     }
                 }
             } else {
@@ -274,7 +276,12 @@ impl<const N: u32> From<&Q32E2> for PxE2<{ N }> {
                 frac_a = 0;
             }
 
-            exp_a <<= 28 - reg_a;
+            // a regime longer than 28 bits leaves room for only part of the exponent field
+            exp_a = if reg_a <= 28 {
+                exp_a << (28 - reg_a)
+            } else {
+                exp_a >> (reg_a - 28)
+            };
             let mut u_a = Self::pack_to_ui(regime, exp_a as u32, frac_a) & Self::mask();
 
             if bit_n_plus_one {
